@@ -8,7 +8,6 @@ import io
 import json
 import logging
 import re
-import sys
 
 from asyncio_taskpool import SimpleTaskPool, TaskPool
 from asyncio_taskpool.control.parser import ControlParser
